@@ -33,7 +33,7 @@ SHARDS = 4
 RULE = (
     "programs = forests <= N nodes x <= k deviations over {message type m/n/'' and api, action type X/Y, "
     "style with/context+finish/run+finish/start_task/log_call/remote-immediate/remote-deferred, exit "
-    "ok/failed/propagating, start/success fields}; all captured by one MemoryLogger; every action type "
+    "ok/failed/propagating, start/success fields}; all captured by one MemoryLogger (and inspected once more, with the first results kept alive, before a deferred remote sub-task logs into already finished actions); every action type "
     "and message type occurring is queried; assert helpers are tried with {exact, subset, one wrong "
     "value, one absent key, wrong succeeded flag}; non-trivial = program with >= 2 actions"
 )
@@ -107,11 +107,24 @@ def capture(prog):
     def go():
         logger = MemoryLogger()
         prev = swap_logger(logger)
+        kept = []
+
+        def inspect_early(it):
+            # a test may look at the log, keep what it found, and look again after more was logged
+            # into the same (already finished) actions: the later look must show the later state
+            for at in sorted(set(m["action_type"] for m in logger.messages if "action_type" in m)):
+                try:
+                    kept.append(LoggedAction.of_type(logger.messages, at))
+                except Exception:
+                    pass
+
         try:
             it = progs.Interp(prog)
+            it.before_deferred = inspect_early
             it.run()
         finally:
             swap_logger(prev)
+        it.kept_early = kept
         return it, logger
 
     return world.run_isolated(go)
